@@ -77,6 +77,13 @@ CLAIMED = {
          "Gregorian civil-from-days and the canonical forced-GMT GeneralizedTime/UTCTime text. TLC enumerates arc vectors and (day, second, "
          "fraction, TZ) tuples at the calendar edges; the driver runs each call under the given POSIX TZ; TLC validates text and round trip.",
          "TLA+ OID/time relations + TLC-enumerated edges x time zones + trace validation"),
+ "C11": ("model_checking", "7 C11",
+         "Asn1Tags.tla contains an independent implementation of exactly the rules the property names (outermost tag sets through untagged CHOICEs and "
+         "references after the IMPLICIT/EXPLICIT/AUTOMATIC transformation; CHOICE / SET distinctness; SEQUENCE OPTIONAL runs; duplicate identifiers and "
+         "enumeration items; dangling references). MC_Legal.tla is the module-construction state machine; TLC enumerates every module of the stated "
+         "size breadth-first, asn1c built from the working tree is run on each, and TLC validates the run: exit = 0 <=> Legal, rejection with a "
+         "diagnostic and without output files, never a signal.",
+         "TLA+ legality rules + TLC-enumerated module construction state machine + trace validation of compiler runs"),
 }
 
 checks = []
